@@ -109,6 +109,10 @@ pub mod stdspecs {
         forall|x: u8, r: bool| #[trigger] call_ensures(p, (&x,), r) ==> r == (x == c)
     }
 
+    // ---- core::mem::take: the old value is returned, the place holds whatever T::default() may return ----------
+    pub assume_specification<T: Default>[ core::mem::take::<T> ](dest: &mut T) -> (r: T)
+        ensures r == *old(dest), call_ensures(T::default, (), *final(dest));
+
     // ---- Vec::shrink_to_fit: contents unchanged -----------------------------------------------------------------
     pub assume_specification<T, A: core::alloc::Allocator>[ Vec::<T, A>::shrink_to_fit ](v: &mut Vec<T, A>)
         ensures final(v)@ == old(v)@;
